@@ -347,14 +347,16 @@ theorem wf_compileDistribute (cfg : Cfg) (S D : Labware) (a : DistArgs) :
       apply wf_exceptMicros
       intro ps _
       split
-      · split
-        · exact wf_single trivial
-        · exact wf_append (wf_append (wf_append (wf_append
-            (wf_compileRemove _ _ _ _ _)
-            (wf_exceptMicros _ _ (fun i _ => wf_single trivial)))
-            (wf_compileAdd _ _ _ _ _ _ _))
-            (wf_commentMicros _)) (wf_compileRD _ _)
       · exact wf_single trivial
+      · split
+        · split
+          · exact wf_single trivial
+          · exact wf_append (wf_append (wf_append (wf_append
+              (wf_compileRemove _ _ _ _ _)
+              (wf_exceptMicros _ _ (fun i _ => wf_single trivial)))
+              (wf_compileAdd _ _ _ _ _ _ _))
+              (wf_commentMicros _)) (wf_compileRD _ _)
+        · exact wf_single trivial
 
 theorem wf_compileEvoAD (cfg : Cfg) (L : Labware) (l : Nat) (isAsp : Bool) (a : EvoADArgs)
     (label : Option String) (comps : Option (List (Option Comp))) :
